@@ -90,6 +90,18 @@ HARMLESS = {
         sub("src/rtte.rs", "        match self.state {\n            RttState::Initial { rto } => rto,\n            RttState::Subsequent { srtt, .. } => srtt,\n        }", "        if let RttState::Subsequent { srtt, .. } = self.state {\n            return srtt;\n        }\n        match self.state {\n            RttState::Initial { rto } => rto,\n            RttState::Subsequent { srtt, .. } => srtt,\n        }")),
     "extra-logging-and-comment": (["C17"],
         sub("src/stream_dispatch.rs", "        // Only send fin after all the outstanding data was sent.\n", "        // Only send fin after all the outstanding data was sent (and note it in the log).\n        trace!(?seq_nr, last_sent = ?self.last_sent_seq_nr, \"maybe_send_fin\");\n")),
+    "poll-rename-and-reorder": (["C17", "C18", "C10"],
+        lambda root: [sub("src/stream_dispatch.rs", "            self.this_poll.transport_pending = false;\n            self.this_poll.now = self.env.now();", "            self.this_poll.now = self.env.now();\n            self.this_poll.transport_pending = false;")(root),
+                      sub("src/stream_dispatch.rs", "                let duration = instant - self.this_poll.now;\n                trace!(?duration, \"will repoll in\");\n                if !self.timers.arm_in(cx, duration) {", "                let wait = instant - self.this_poll.now;\n                trace!(?wait, \"will repoll in\");\n                if !self.timers.arm_in(cx, wait) {")(root),
+                      sub("src/stream_dispatch.rs", "trace!(deadline = ?duration, \"failed arming poll timer, waking to repoll\");", "trace!(deadline = ?wait, \"failed arming poll timer, waking to repoll\");")(root)]),
+    "table-reorder-independent-arms": (["C17", "C04"],
+        sub("src/stream_dispatch.rs", "            (FinWait2, ST_FIN) => {\n                trace!(\"state: fin-wait-2 -> closed\");\n                self.restart_remote_inactivity_timer();\n                self.state = Closed;\n            }\n            (FinWait2, ST_DATA | ST_STATE) => {}", "            (FinWait2, ST_DATA | ST_STATE) => {}\n            (FinWait2, ST_FIN) => {\n                trace!(\"state: fin-wait-2 -> closed\");\n                self.restart_remote_inactivity_timer();\n                self.state = Closed;\n            }")),
+    "packet-tail-rename-local": (["C07", "C04"],
+        lambda root: [sub("src/stream_dispatch.rs", "                let assembler_was_empty = self.user_rx.assembler_empty();", "                let was_empty = self.user_rx.assembler_empty();")(root),
+                      sub("src/stream_dispatch.rs", "                if !self.user_rx.assembler_empty() || !assembler_was_empty {", "                if !self.user_rx.assembler_empty() || !was_empty {")(root),
+                      sub("src/stream_dispatch.rs", "                        assembler_was_empty,\n", "                        assembler_was_empty = was_empty,\n")(root)]),
+    "probe-step-extra-trace": (["C17", "C14"],
+        sub("src/stream_dispatch.rs", "                self.timers.retransmit.turn_off(\"MTU probe is not real RTO\");", "                trace!(\"turning off the retransmit timer\");\n                self.timers.retransmit.turn_off(\"MTU probe is not real RTO\");")),
     "helper-extracted-ooq": (["C04"],
         sub("src/stream_rx.rs", "    pub fn is_full(&self) -> bool {\n        self.len == self.capacity\n    }", "    pub fn is_full(&self) -> bool {\n        self.free_slots() == 0\n    }\n\n    fn free_slots(&self) -> usize {\n        self.capacity - self.len\n    }")),
 }
